@@ -1736,7 +1736,8 @@ def grid_annulus(P, rep, rule="GRID.annulus"):
 
 def filter_call_sites(P, rep, rule="FILTER.calls"):
     rep.rule(rule, "filter_vtu_mesh appends to its output mesh and data sets: at every call the output containers are objects declared in the "
-                   "same iteration (block) as the call and not used before it, so each filtered file starts empty")
+                   "same iteration (block) as the call and not used before it, so each filtered file starts empty; in the per-tag loop the selection mask is "
+                   "fresh (or cleared) in every iteration and has exactly the entry of the loop's tag set")
     FV = P.funcs_named("filter_vtu_mesh")
     if len(FV) != 1:
         rep.unknown(rule, "filter_vtu_mesh not found")
@@ -1776,6 +1777,47 @@ def filter_call_sites(P, rep, rule="FILTER.calls"):
                         l2 = astq.enclosing(F, d2, astq.LOOPS) if d2 is not None else None
                         if d2 is not None and (l2["i"] if l2 else None) != (loop["i"] if loop else None):
                             bad.append("%s (part of %s) is declared outside the calling loop" % (y.get("n"), a0.get("n")))
+        # inside a loop over the tags the selection mask picks the tag of this iteration only
+        if loop is not None and len(args) > 1:
+            m0 = sc(args[1])
+            mdecl = None
+            if m0.get("k") == "DeclRefExpr":
+                for x in F.walk():
+                    if x.get("k") == "VarDecl" and x.get("r") == m0["r"]:
+                        mdecl = x
+            if mdecl is None:
+                bad.append("the selection mask is not a local object")
+            else:
+                mloop = astq.enclosing(F, mdecl, astq.LOOPS)
+                fresh = (mloop["i"] if mloop else None) == loop["i"]
+                if not fresh:
+                    # declared outside: acceptable only if the loop clears it before use (assign / std::fill over the whole mask)
+                    cleared = False
+                    for y in F.walk(loop):
+                        if y.get("k") in ("CXXMemberCallExpr",) and P.d(y.get("callee")).get("n") == "assign" and any(
+                                z.get("k") == "DeclRefExpr" and z.get("r") == m0["r"] for z in F.walk(y["c"][0])) and (y.get("l") or 0) < (call.get("l") or 0):
+                            cleared = True
+                        if y.get("k") == "CallExpr" and P.d(y.get("callee")).get("qn") == "std::fill" and any(
+                                z.get("k") == "DeclRefExpr" and z.get("r") == m0["r"] for z in F.walk(y)) and (y.get("l") or 0) < (call.get("l") or 0):
+                            cleared = True
+                    if not cleared:
+                        bad.append("the selection mask %s is declared outside the loop and not cleared in it (tags selected in earlier iterations stay selected)" % m0.get("n"))
+                else:
+                    init_txt = norm.render(P, mdecl["c"][0], nocast=True) if mdecl.get("c") else ""
+                    if "false" not in init_txt:
+                        bad.append("the selection mask does not start all-false (%s)" % init_txt[:40])
+                lv = None
+                if loop.get("k") == "ForStmt" and loop["c"][0] is not None and loop["c"][0].get("k") == "DeclStmt":
+                    lv = loop["c"][0]["c"][0].get("r")
+                stores = []
+                for y in F.walk(loop):
+                    if y.get("k") in ("BinaryOperator", "CXXOperatorCallExpr") and y.get("op") == "=":
+                        kids = [z for z in y["c"] if z is not None]
+                        sb = astq.subscript(sc(kids[-2]))
+                        if sb and astq.is_ref_to(sc(sb[0]), m0["r"]):
+                            stores.append((sb, kids[-1]))
+                if len(stores) != 1 or not astq.is_ref_to(sc(stores[0][0][1]), lv) or norm.render(P, stores[0][1]).strip("()") != "true":
+                    bad.append("the loop does not set exactly mask[loop index] = true (%d stores)" % len(stores))
         if bad:
             rep.violation(rule, "filter_vtu_mesh call at line %s: %s" % (call.get("l"), "; ".join(sorted(set(bad)))), F.nloc(call), F.qn, norm.render(P, call)[:120],
                           "later filtered files also contain the cells and node data of earlier ones", key="%s|%s" % (rule, "loop" if loop else "top"),
@@ -1960,3 +2002,99 @@ def zlib_blocks(P, rep, rule="VTU.zlib-blocks"):
             n_ok += 1
             rep.ok(rule, "zlibCompressData: ceil(n/b) blocks, last block 1..b bytes (%d residue cases)" % cases, F.loc, F.qn)
     rep.floor(rule, len(fs[:1]), 1, "instantiations of zlibCompressData")
+
+
+# ------------------------------------------------------------------------------------------------
+def sphere_layers(P, rep, rule="GRID.sphere-layers"):
+    """gwb-grid sphere: every radial layer is the unit shell projected onto that layer's radius"""
+    rep.rule(rule, "gwb-grid sphere grid: in the loop over the radial layers the arrays handed to project_on_sphere are copied from the unit shell "
+                   "inside the same iteration (not projected in place from the previous layer, which collapses for an inner radius 0), and the "
+                   "layer radius is inner + (outer - inner) * i / n_layers (inner at i = 0, outer at i = n_layers)")
+    F = main_of(P, "gwb-grid")
+    calls = [x for x in F.walk() if x.get("k") == "CallExpr" and P.d(x.get("callee")).get("qn", "").endswith("project_on_sphere")]
+    calls = [c for c in calls if astq.enclosing(F, c, ("ForStmt",)) is not None]
+    n = 0
+    for call in calls:
+        args = call["c"][1:]
+        if len(args) != 4:
+            continue
+        bases = []
+        for a in args[1:]:
+            sb = astq.subscript(sc(a))
+            if sb and sc(sb[0]).get("k") == "DeclRefExpr":
+                bases.append(sc(sb[0])["r"])
+        rad = sc(args[0])
+        if len(bases) != 3 or rad.get("k") != "DeclRefExpr":
+            continue
+        # the layer loop: the outermost enclosing for loop whose body assigns the radius
+        layer = None
+        for a in F.ancestors(call):
+            if a.get("k") == "ForStmt" and any(y.get("k") == "BinaryOperator" and y.get("op") == "=" and astq.is_ref_to(sc(y["c"][0]), rad["r"]) for y in F.walk(a["c"][3])):
+                layer = a
+        if layer is None:
+            continue
+        n += 1
+        body = layer["c"][3]
+        stmts = body["c"] if body.get("k") == "CompoundStmt" else [body]
+        holder = next((s for s in stmts if any(y is call for y in F.walk(s))), None)
+        problems = []
+        for b in bases:
+            src = None
+            for s in stmts:
+                if s is holder:
+                    break
+                s0 = sc(s)
+                if s0 is not None and s0.get("k") in ("BinaryOperator", "CXXOperatorCallExpr") and s0.get("op") == "=":
+                    kids = [z for z in s0["c"] if z is not None]
+                    if astq.is_ref_to(sc(kids[-2]), b) and sc(kids[-1]).get("k") == "DeclRefExpr":
+                        src = sc(kids[-1])["r"]
+            if src is None:
+                problems.append("%s is not copied from the unit shell inside the layer iteration" % P.d(b).get("n"))
+                continue
+            written = False
+            for y in F.walk(layer):
+                if y.get("k") in ("BinaryOperator", "CXXOperatorCallExpr", "CompoundAssignOperator") and y.get("op") in norm.ASSIGN_OPS:
+                    kids = [z for z in y["c"] if z is not None]
+                    t = sc(kids[-2])
+                    while astq.subscript(t):
+                        t = sc(astq.subscript(t)[0])
+                    if t.get("k") == "DeclRefExpr" and t.get("r") == src:
+                        written = True
+                if y.get("k") == "CallExpr" and y is not call and any(z.get("k") == "DeclRefExpr" and z.get("r") == src for z in F.walk(y)) \
+                        and P.d(y.get("callee")).get("qn", "").endswith("project_on_sphere"):
+                    written = True
+            if written:
+                problems.append("the source %s of %s is modified inside the layer loop" % (P.d(src).get("n"), P.d(b).get("n")))
+        # radius of layer i
+        lv = layer["c"][0]["c"][0].get("r") if layer["c"][0] is not None and layer["c"][0].get("k") == "DeclStmt" else None
+        rasg = [y for y in F.walk(body) if y.get("k") == "BinaryOperator" and y.get("op") == "=" and astq.is_ref_to(sc(y["c"][0]), rad["r"])]
+        ok_r = False
+        detail = ""
+        if len(rasg) == 1 and lv is not None:
+            i_ = sp.Symbol("i_layer", nonnegative=True)
+            try:
+                symb = norm.Sym(P, F, inline_locals=False, env={lv: i_})
+                E = sp.simplify(symb(rasg[0]["c"][1]))
+                others = sorted(E.free_symbols - {i_}, key=str)
+                # inner at i = 0; outer at the loop's last index (bound - 1 for `i < n + 1`)
+                cond = sc(layer["c"][1])
+                last = None
+                if cond.get("k") == "BinaryOperator" and cond.get("op") in ("<", "<=") and astq.is_ref_to(sc(cond["c"][0]), lv):
+                    ub = symb(cond["c"][1])
+                    last = sp.simplify(ub - 1) if cond["op"] == "<" else ub
+                e0 = sp.simplify(E.subs(i_, 0))
+                e1 = sp.simplify(E.subs(i_, last)) if last is not None else None
+                lin = sp.Poly(E, i_).degree() == 1
+                ok_r = lin and e0.is_Symbol and e1 is not None and e1.is_Symbol and e0 != e1
+                detail = "radius(i) = %s: %s at the first layer, %s at the last" % (E, e0, e1)
+            except Exception as e:
+                detail = "radius not evaluated (%s)" % e
+        if not ok_r:
+            problems.append(detail or "layer radius is not assigned exactly once")
+        if problems:
+            rep.violation(rule, "sphere layers: " + "; ".join(problems), F.nloc(call), F.qn, norm.render(P, call)[:120],
+                          "the nodes of a layer are not the unit shell moved onto that layer's radius", key=rule + "|layers",
+                          witness="sphere grid with z_min = 0 (inner radius 0): every layer after the first is NaN")
+        else:
+            rep.ok(rule, "each layer is a fresh copy of the unit shell projected onto its radius; " + detail, F.nloc(call), F.qn)
+    rep.floor(rule, n, 1, "layer loops that project the shell")
